@@ -145,3 +145,15 @@ impl<'w> DespawnEvent<'w>
 }
 
 //-------------------------------------------------------------------------------------------------------------------
+
+#[cfg(feature = "verif")]
+impl DespawnAccessTracker
+{
+    /// Returns (number of prepared entries, currently reacting, reactor handle held).
+    pub(crate) fn verif_state(&self) -> (usize, bool, bool)
+    {
+        (self.prepared.len(), self.currently_reacting, self.reactor_handle.is_some())
+    }
+}
+
+//-------------------------------------------------------------------------------------------------------------------
